@@ -70,3 +70,13 @@ Proof. vm_compute. reflexivity. Qed.
 
 Lemma drift_req_exact : mrcached drift_req = mpayload_size Bytes (mrp drift_req).
 Proof. vm_compute. reflexivity. Qed.
+
+(* C04-DONE-FOREIGN-ERROR (recorded from the implementation, slack 2, min_size = max_size = 3): request 0 = [],
+   request 1 = [1;2] (both parked), request 2 = [3..7]: MergeSplit returns [1;2] (nothing of request 2 fitted beside
+   the parked ids), [3;4;5], [6;7]; only the export of batch 0 = [1;2] fails, yet request 2 reports an error *)
+Definition foreign_evs : list tbev :=
+  [(0,[],0);(0,[1;2],0);(0,[3;4;5;6;7],0);(2,[0],1);(3,[],0);(2,[1],0);(2,[2],0)].
+
+Lemma foreign_error_witness :
+  model_bat 2 3 3 foreign_evs = ([[1;2];[3;4;5];[6;7]], [(0,1);(1,1);(2,1)]).
+Proof. vm_compute. reflexivity. Qed.
